@@ -57,6 +57,10 @@ func (s *scanner) Scan(value bytes.Bytes) (*Number, error) {
 		return nil, err
 	}
 
+	if len(n.nat) == 0 {
+		n.neg = false // zero has no sign: -0 == 0
+	}
+
 	return &n, nil
 }
 
